@@ -16,7 +16,9 @@ replay = base.replay
 
 def rename_bnodes(rng, triples):
     labels = sorted(set(t[1] for s, p, o in triples for t in (s, o) if t[0] == 'B'))
-    new = ['_:r%d' % i for i in range(len(labels))]
+    # legal blank-node labels of several shapes: letters and digits, inner '-', '.', '_', uuid-like
+    style = rng.choice(['_:r%d', '_:r-%d', '_:genid.%d', '_:b_%d_x', '_:N3f2a9c-%d-4e', '_:%dz'])
+    new = [style % i for i in range(len(labels))]
     rng.shuffle(new)
     m = dict(zip(labels, new))
     f = lambda t: ('B', m[t[1]]) if t[0] == 'B' else t
